@@ -406,7 +406,7 @@ class GuppyObject(DunderMixin):
             self._used = ObjectUse(module_name, frame.f_lineno, called_func)
             if not self._ty.droppable:
                 state = get_tracing_state()
-                state.unused_undroppable_objs.pop(self._id)
+                state.unused_undroppable_objs.pop(self._id, None)
         return self._wire
 
 
